@@ -99,6 +99,10 @@ def make_task(kind, direction, seed, log=None):
         vs = [ContinuousMultiVariable(name="x", lower_bounds=[-400, -100, -900], upper_bounds=[100, 700, 50])]
     elif kind == "cont1":
         vs = [ContinuousVariable(name="x", lower_bound=-2.5, upper_bound=7.0)]
+    elif kind == "multi1":    # dimension 1 written with a multi-variable of one coordinate
+        vs = [ContinuousMultiVariable(name="x", lower_bounds=[-2.5], upper_bounds=[7.0])]
+    elif kind == "multi1b":   # a size-1 multi-variable next to another variable
+        vs = [ContinuousMultiVariable(name="x", lower_bounds=[-2.5], upper_bounds=[7.0]), ContinuousVariable(name="y", lower_bound=0.0, upper_bound=3.0)]
     elif kind == "contbig":
         vs = [ContinuousMultiVariable(name="x", lower_bounds=[-1e6, 1e5], upper_bounds=[1e6, 3e5])]
     elif kind == "multiobj":
@@ -135,8 +139,10 @@ def _objective(kind, x):
         return 3.0 * abs(x[0] - 7.0) + (x[1] - 2.5) ** 2 + abs(x[2] + 4.0) + 11.0
     if kind == "plateau":
         return float(int(abs(x[0])) + int(abs(x[1])))
-    if kind == "cont1":
+    if kind in ("cont1", "multi1"):
         return (x[0] - 1.0) ** 2 - 3.0          # negative costs occur
+    if kind == "multi1b":
+        return (x[0] - 1.0) ** 2 + (x[1] - 2.0) ** 2 - 3.0
     if kind == "contbig":
         return abs(x[0]) * 1e-3 + abs(x[1] - 2e5) * 1e-3
     if kind == "multiobj":
@@ -196,8 +202,11 @@ def stop_spec(cfg, k, rates):
     if cfg.fitness_error is not None and rates[k - 1] <= cfg.fitness_error:
         return True
     es = cfg.early_stopping
-    if es is not None and k - 1 >= es.patience:
-        if all((rates[j] - rates[j - 1] < 0) and abs(rates[j] - rates[j - 1]) < es.min_delta for j in range(k - es.patience, k)):
+    if es is not None:
+        # a criterion left at None means the model's default (EarlyStopping: patience 1, min_delta 1e-4)
+        patience = es.patience if es.patience is not None else 1
+        min_delta = es.min_delta if es.min_delta is not None else 1e-4
+        if k - 1 >= patience and all((rates[j] - rates[j - 1] < 0) and abs(rates[j] - rates[j - 1]) < min_delta for j in range(k - patience, k)):
             return True
     return False
 
@@ -232,6 +241,13 @@ def run_case(case):
     logf.close()
     task, calls = make_task(case["kind"], case["direction"], case["seed"], log=logf.name)
     cfg_before, task_before = cfg.model_dump(), task.model_dump()
+
+    def _obs(t):        # what the task answers about its search space (also covers private caches the dump does not show)
+        try:
+            return repr([np.asarray(b).tolist() for b in t.get_bounds()]) + repr(t.space_dimension) + repr([v.model_dump() for v in t.get_variables()])
+        except Exception as ex_:  # noqa
+            return f"{type(ex_).__name__}"
+    obs_before = _obs(task)
     snaps = []
     orig_init = Population.__init__
 
@@ -339,6 +355,8 @@ def run_case(case):
         M["C09"] = f"configuration changed by optimize(): {diff}"
     elif task.model_dump() != task_before:
         M["C09"] = "task changed by optimize()"
+    elif _obs(task) != obs_before:
+        M["C09"] = f"the task's search-space description changed by optimize(): {obs_before[:80]} -> {_obs(task)[:80]}"
     # C10
     N = cfg.population_size
     for gi, g in enumerate(gens):
@@ -584,7 +602,7 @@ def _dispatch(case):
 
 
 # ---- campaign ----------------------------------------------------------------------------------------------------------------------------------------------
-CONT = ["cont3", "cont1", "contbig", "multiobj", "cont3b", "cont3c", "plateau"]
+CONT = ["cont3", "cont1", "contbig", "multiobj", "cont3b", "cont3c", "plateau", "multi1", "multi1b"]
 INTCODED = ["discrete", "binary", "mixed", "perm"]
 
 
@@ -608,7 +626,10 @@ def build_cases(tier, seed):
                                               mode=None, scenario="single", scale=sc))
         # stopping options
         for extra in (dict(fitness_error=0.5), dict(fitness_error=None, early_stopping=dict(patience=2, min_delta=0.5)),
-                      dict(fitness_error=1e-9, early_stopping=dict(patience=1, min_delta=1e-3))):
+                      dict(fitness_error=1e-9, early_stopping=dict(patience=1, min_delta=1e-3)),
+                      # criteria the model accepts as None (C06: accepted by the validators; C09: the object must stay as given)
+                      dict(fitness_error=None, early_stopping=dict(patience=None, min_delta=0.5)),
+                      dict(fitness_error=None, early_stopping=dict(patience=2, min_delta=None))):
             kw = dict(base, max_cycles=6, **extra)
             cases.append(dict(opt=opt, cfg_name=cfg_name, cfg_kw=kw, kind="cont3", direction="min", seed=seeds[0], mode=None,
                               scenario="single", scale=1.0, stopping=json.dumps(extra)))
@@ -617,6 +638,11 @@ def build_cases(tier, seed):
             kw = dict(base, max_cycles=2)
             cases.append(dict(opt=opt, cfg_name=cfg_name, cfg_kw=kw, kind="cont3", direction="min", seed=seeds[0], mode=mode,
                               workers=workers, scenario="single", scale=1.0))
+        # more workers than agents (a pool must cope with idle workers)
+        if tier != "quick" or len({c_["opt"] for c_ in cases}) <= 8:
+            kw = dict(base, max_cycles=2)
+            cases.append(dict(opt=opt, cfg_name=cfg_name, cfg_kw=kw, kind="cont3", direction="min", seed=seeds[0], mode="process",
+                              workers=base["population_size"] + 1, scenario="single", scale=1.0))
         # relational scenarios
         for scn in ("repro", "reuse", "setcfg", "duality", "reuse2", "repro0", "setcfg2", "duality_reuse", "reuse3", "reuse_dim"):
             kw = dict(base, max_cycles=3)
@@ -653,6 +679,9 @@ def build_cases(tier, seed):
         for kind in ("cont3", "multiobj"):
             cases.append(dict(opt=opt, cfg_name=cfg_name, cfg_kw=dict(base, max_cycles=2), kind=kind, direction="min", seed=seeds[0],
                               mode=None, scenario="rejected", scale=1.0))
+        for kind in ("multi1", "multi1b"):
+            cases.append(dict(opt=opt, cfg_name=cfg_name, cfg_kw=dict(base, max_cycles=3), kind=kind, direction="min", seed=seeds[0],
+                              mode=None, scenario="single", scale=1.0))
     return cases
 
 
